@@ -504,16 +504,20 @@ class Interpreter:
             # do not conflict. Two transitions conflict if one of them leaves the parallel state
             for t1, t2 in combinations(transitions, 2):
                 # Check (1)
-                lca = cast(str, self._statechart.least_common_ancestor(t1.source, t2.source))
-                lca_state = self._statechart.state_for(lca)
+                lca = self._statechart.least_common_ancestor(t1.source, t2.source)
+                lca_state = self._statechart.state_for(lca) if lca else None
 
-                # Their LCA must be an orthogonal state!
-                if not isinstance(lca_state, OrthogonalState):
+                # They must have distinct sources, and their LCA must be an orthogonal state!
+                if t1.source == t2.source or not isinstance(lca_state, OrthogonalState):
                     raise NonDeterminismError(
                         'Non-determinist choice between transitions {t1} and {t2}'
                         '\nConfiguration is {c}\nEvent is {e}\nTransitions are:{t}\n'
                         .format(c=self.configuration, e=t1.event, t=transitions, t1=t1, t2=t2)
                     )
+
+            # Non-determinism is reported first, whatever the order of the pairs
+            for t1, t2 in combinations(transitions, 2):
+                lca = self._statechart.least_common_ancestor(t1.source, t2.source)
 
                 # Check (2)
                 # This check must be done wrt. to LCA, as the combination of from_states could
